@@ -1,4 +1,4 @@
-// C20 correspondence harness, part 3: std::map / set / multimap / multiset with momo's pool allocator against twins with
+// C20 correspondence harness (std::map / std::set), part 3: std::map / set / multimap / multiset with momo's pool allocator against twins with
 // std::allocator and against the Lean model (allocator level and container level).  See c20_alloc.h / c20_world.h.
 #include "c20_world.h"
 
@@ -8,9 +8,9 @@ int main(int argc, char** argv)
 {
 	Ctx c = parseArgs(argc, argv);
 	Rng rng(c.seed * 0x1000 + 22);
-	arena().init(c); arena().rng = &rng;
-	const unsigned steps = c.thorough ? 1200 : 400;
-	const unsigned rounds = c.thorough ? 6 : 2;
+	arena().init(c); arena().rng = &rng; installCrashReporter();
+	const unsigned steps = c.thorough ? 1500 : 500;
+	const unsigned rounds = c.thorough ? 12 : 4;
 	for (unsigned round = 0; round < rounds; ++round) {
 		std::string r = fmt("r%u_", round);
 		runTraced<KMap<int, int, false>, Cfg<32, 16>>(c, rng, r + "map_ii_a", steps);
@@ -21,14 +21,8 @@ int main(int argc, char** argv)
 		runTraced<KSet<int, false>, Cfg<2, 16>>(c, rng, r + "set_i_b", steps);
 		runTraced<KSet<Big, false>, Cfg<17, 3>>(c, rng, r + "set_b_a", steps);
 		runTraced<KSet<std::string, false>, Cfg<18, 16>>(c, rng, r + "set_s_a", steps);
-		runTraced<KMap<int, int, true>, Cfg<22, 0>>(c, rng, r + "mmap_ii_a", steps);
-		runTraced<KMap<int, std::string, true>, Cfg<23, 16>>(c, rng, r + "mmap_is_a", steps);
-		runTraced<KSet<int, true>, Cfg<26, 1>>(c, rng, r + "mset_i_a", steps);
-		runTraced<KSet<Al16, true>, Cfg<27, 16>>(c, rng, r + "mset_al16", steps);
 		// the momo allocator itself, without the reporting shell
 		runPlain<KMap<int, int, false>, Cfg<momo::MemPoolConst::defaultBlockCount, momo::MemPoolConst::defaultCachedFreeBlockCount>>(c, rng, r + "map_ii", steps);
-		runPlain<KSet<std::string, false>, Cfg<3, 0>>(c, rng, r + "set_s", steps);
-		runPlain<KMap<int, int, true>, Cfg<1, 16>>(c, rng, r + "mmap_ii", steps);
 	}
 	dumpTracerStats(c);
 	return c.finish();
